@@ -16,7 +16,7 @@
      data/type_int.go, type_string.go, type_array.go, type_class.go, type_generic.go  (Is)
      node/call_object_method.go callMethodParams + node/function.go Parameter.SetValue (T-typed
                             method parameter), node/new.go createInstanceAndCallConstructorWithStmt
-                            (promoted constructor parameter: unchecked, recorded finding)
+                            (promoted constructor parameter)
 
    The class *declaration* (ClassStatement.Properties) is one cell shared by every
    instantiation: Clone copies the pointer and swaps only GenericMap.  The state below keeps
@@ -187,9 +187,10 @@ End WithGetProperty.
    binds a *Parameter with Parameter.SetValue; node/function.go Parameter.SetValue lets null
    through, replaces data.Generic{T} by GenericMap[T] of the instantiation the method runs on
    (left as Generic, whose Is is `return true`, when T is not in the map) and asks Types.Is.
-   `public T $v` promoted in the constructor of a generic class:
-   node/new.go createInstanceAndCallConstructorWithStmt stores the argument with
-   object.SetProperty(PropertyName, value) — no check. *)
+   `public T $v` promoted in the constructor of a generic class (after fix dbde2bb):
+   node/new.go createInstanceAndCallConstructorWithStmt binds *Parameter / *PromotedParameter
+   arguments through the same Parameter.SetValue (the context's class is the instantiation), then
+   copies the bound value into the property. *)
 Definition method_param_accepts (d : option dty) (m : list (string * cty)) (v : value) : bool :=
   match d with
   | None => true
@@ -202,7 +203,7 @@ Definition method_param_accepts (d : option dty) (m : list (string * cty)) (v : 
              end
       end
   end.
-Definition ctor_promoted_accepts (d : option dty) (m : list (string * cty)) (v : value) : bool := true.
+Definition ctor_promoted_accepts := method_param_accepts.
 End WithHierarchy.
 
 Definition init (tbl : ctable) : state := {| decls := tbl; insts := [] |}.
